@@ -90,7 +90,7 @@ def build_obligation(inst):
                     z = Contraction(ops.null, ops.add, frozenset(), t, t)
                     r = z.align(target)
                 r = funsor.reinterpret(r)
-            pairs = [(_b(mk, r.output == (t.output if how not in ("lazy_binary", "contraction") or dtype == "real" else r.output) and set(r.inputs) == set(t.inputs)), None)]
+            pairs = [(_b(mk, r.output == (t.output if how not in ("lazy_binary", "contraction") or dtype == "real" else r.output) and dict(r.inputs) == dict(t.inputs)), None)]
             if how in ("tensor",):
                 pairs.append((_b(mk, tuple(r.inputs)[: len(target)] == target), None))
             xa = x.view(np.ndarray) if isinstance(x, np.ndarray) else x
@@ -232,6 +232,69 @@ def build_obligation(inst):
                     exp.append(C.BINARY[opname](xa[pt], ya[ppt]))
                     got.append(cells[()])
             return [(got, exp)]
+        return ob
+    if kind == "constant_align":
+        # funsor.constant.Constant with several constant inputs of DIFFERENT sizes: align keeps every name's domain and value
+        _, sizes, cperm, perm = inst
+
+        def ob(mk):
+            from funsor import Bint, Tensor
+            from funsor.constant import Constant
+            from harness.core import result_cells
+            names = ["a", "b", "c"][: len(sizes)]
+            cnames, csizes = ["p", "q", "r"], [2, 3, 4]
+            x = mk.array("x", tuple(sizes), "real")
+            t = Tensor(x, OrderedDict((n, Bint[s_]) for n, s_ in zip(names, sizes)))
+            c = Constant(OrderedDict((n, Bint[s_]) for n, s_ in zip(cnames[: len(cperm)], csizes)), t)
+            target = tuple(cnames[i] for i in cperm) + tuple(names[i] for i in perm)
+            r = c.align(target)
+            pairs = [(_b(mk, dict(r.inputs) == dict(c.inputs) and tuple(r.inputs) == target and r.output == c.output), None)]
+            xa = x.view(np.ndarray)
+            got, exp = [], []
+            for pt in itertools.product(*(range(s_) for s_ in sizes)):
+                env = dict(zip(names, pt))
+                env.update({n: csizes[i] - 1 for i, n in enumerate(cnames[: len(cperm)])})      # the LARGEST legal value of each constant input
+                got.append(result_cells(r, env)[()])
+                exp.append(xa[pt])
+            pairs.append((got, exp))
+            # the domain is what a later reduction multiplies by
+            import funsor.ops as ops
+            red = r.reduce(ops.add, cnames[0])
+            env0 = {n: 0 for n in names}
+            env0.update({n: 0 for n in cnames[1: len(cperm)]})
+            from lang import cellops as C
+            pairs.append(([result_cells(red, env0)[()]], [C.BINARY["mul"](xa[(0,) * len(sizes)], float(csizes[0]))]))
+            return pairs
+        return ob
+    if kind == "getitem_name":
+        # x[:, ..., "k"]: a positional event dim becomes the named input k, on a Tensor that already has named inputs
+        _, sizes, ev, offset = inst
+
+        def ob(mk):
+            from funsor import Bint, Tensor
+            from harness.core import result_cells
+            names = ["a", "b"][: len(sizes)]
+            x = mk.array("x", tuple(sizes) + tuple(ev), "real")
+            t = Tensor(x, OrderedDict((n, Bint[s_]) for n, s_ in zip(names, sizes)))
+            r = t[(slice(None),) * offset + ("k",)]
+            want_inputs = OrderedDict([(n, Bint[s_]) for n, s_ in zip(names, sizes)] + [("k", Bint[ev[offset]])])
+            pairs = [(_b(mk, dict(r.inputs) == dict(want_inputs) and r.output.shape == tuple(ev[:offset] + ev[offset + 1:])), None)]
+            xa = x.view(np.ndarray)
+            got, exp = [], []
+            for pt in itertools.product(*(range(s_) for s_ in sizes)):
+                for k in range(ev[offset]):
+                    env = dict(zip(names, pt), k=k)
+                    cells = result_cells(r, env)
+                    sub = xa[pt][(slice(None),) * offset + (k,)]
+                    if not isinstance(sub, np.ndarray):
+                        c0 = np.empty((), dtype=object)
+                        c0[()] = sub
+                        sub = c0
+                    for ix in np.ndindex(*sub.shape):
+                        got.append(cells[ix])
+                        exp.append(sub[ix])
+            pairs.append((got, exp))
+            return pairs
         return ob
     raise ValueError(kind)
 
@@ -475,6 +538,13 @@ def instances(tier, seed):
         for opname in ("sub", "matmul"):
             for via in ("direct", "align", "align_tensors"):
                 out.append(("align_tensors", sizes, perm, opname, via))
+    for sizes, perm in [((2, 3), (1, 0)), ((2, 3), (0, 1)), ((2,), (0,)), ((2, 2, 3), (2, 0, 1))]:
+        for cperm in [(1, 0), (0, 1), (2, 0, 1), (1, 2, 0), (0,)]:
+            out.append(("constant_align", sizes, cperm, perm))
+    for sizes in [(), (2,), (2, 3), (3,)]:
+        for ev in [(3, 3), (2, 2, 2), (2, 3), (3, 2, 3), (3,)]:
+            for offset in range(len(ev)):
+                out.append(("getitem_name", sizes, ev, offset))
     # Engine B: bookkeeping with unbounded symbolic sizes
     for rank, event_rank in [(1, 0), (2, 0), (2, 1), (3, 1), (3, 0), (4, 1), (4, 2)] + ([(5, 1), (5, 2)] if tier != "quick" else []):
         batch = rank - event_rank
